@@ -123,6 +123,29 @@ def replay_localapp(rec, m):
                 out = type(e).__name__
             now = os.getcwd()
             return now != cwd0, f"run() with a missing binary: {out}; cwd before={cwd0} after={now}"
+        if "allowed_only_from_evaluate" in ob:
+            class EarlyGetter(LProbe):
+                def evaluate(self):
+                    super().evaluate()
+                    raise AppStateError("a JOINED-only getter was called too early")
+            app = EarlyGetter("/bin/true")
+            app.start()
+            try:
+                app.join()
+                out = "returned"
+            except AppStateError:
+                out = "AppStateError"
+            except Exception as e:
+                out = type(e).__name__
+            bad = out == "AppStateError" and (app._state != AppState.FINISHED or app.cleanups != 0)
+            detail = f"join() with an evaluate() that raises AppStateError: {out}, state={app._state}, clean_up calls={app.cleanups} (the run has not ended: 0 expected)"
+            try:
+                app.cancel()
+            except Exception:
+                pass
+            if not bad and app.cleanups != 1:
+                bad, detail = True, detail + f"; after cancel(): clean_up calls={app.cleanups} (exactly once expected)"
+            return bad, detail
         if "hook_requires[evaluate" in ob:
             app = LProbe("/bin/true")
             app.start()
